@@ -151,13 +151,15 @@ func runC14(c *Ctx) {
 	// bufferPacket: direct write only when Queue returned (false, nil); error reaches closeOnWriteErr
 	bp := c.MustFunc(pkgNetmc + ":(*minecraftConn).bufferPacket")
 	if bp != nil {
-		isQueue := callSuffix("queue.PlayPacketQueue).Queue")
+		isQueue := forwardsTo(callSuffix("queue.PlayPacketQueue).Queue")) // the call itself or a thin wrapper handing its results back
 		for _, ci := range callsIn(bp, func(n string, cc *ssa.CallCommon) bool { return methodName(cc) == "WritePacket" }) {
 			// paths that come through the Queue call must cross err==nil and queued==false
 			var qcall ssa.Instruction
-			for _, x := range callsIn(bp, func(n string, cc *ssa.CallCommon) bool { return strings.HasSuffix(n, "queue.PlayPacketQueue).Queue") }) {
-				qcall = x
-			}
+			eachInstr(bp, func(x ssa.Instruction) {
+				if cl, ok := x.(*ssa.Call); ok && isQueue(cl) {
+					qcall = x
+				}
+			})
 			if qcall == nil {
 				c.Undecided("direct-write", "Queue@bufferPacket", "bufferPacket no longer calls PlayPacketQueue.Queue")
 				continue
